@@ -182,6 +182,17 @@ def run(pid, tier, seed, opts):
             return 2
         results.append((mode, k, ms, start, cnt, p.returncode, so, se))
 
+    # a worker that ended with an unclassifiable error (e.g. cargo lost a race for its package-cache / build-directory
+    # lock against another cargo process) is repeated once, alone
+    retried = []
+    for (mode, k, ms, start, cnt, rc, so, se) in results:
+        if classify(rc, so, se)[0] == "error" and mode == "miri":
+            args = ["--seed", str(seed), "--start", str(start), "--count", str(cnt)]
+            p2 = subprocess.run(miri_cmd(args), cwd=SIM, env=miri_env(k, ms), capture_output=True, text=True)
+            retried.append((mode, k, ms, start, cnt, p2.returncode, p2.stdout, p2.stderr))
+        else:
+            retried.append((mode, k, ms, start, cnt, rc, so, se))
+    results = retried
     rows = 0
     harness_errors = []
     counters = {}
